@@ -206,17 +206,35 @@ func cellFromCellBlock(b []byte) (*pb.Cell, uint32, error) {
 			"buffer is too small: expected %d, got %d", int(kvLen)+4, len(b))
 	}
 
+	// From here on only look at this cell's bytes, so that an inconsistent
+	// length field cannot make us read another cell's data or run off the
+	// end of the buffer.
+	b = b[:int(kvLen)+4]
+	if kvLen < 4+4+2+1+8+1 {
+		return nil, 0, fmt.Errorf("KeyValue is too short: %d bytes", kvLen)
+	}
+
 	rowKeyLen := binary.BigEndian.Uint32(b[4:8])
 	valueLen := binary.BigEndian.Uint32(b[8:12])
 	keyLen := binary.BigEndian.Uint16(b[12:14])
 	b = b[14:]
 
+	// b now holds: row, 1 byte family length, family, qualifier, 8 bytes
+	// timestamp, 1 byte type, value
+	if uint64(keyLen)+1 > uint64(len(b)) {
+		return nil, 0, fmt.Errorf("HBase has lied about row length: %d, but only %d bytes left",
+			keyLen, len(b))
+	}
 	key := b[:keyLen]
 	b = b[keyLen:]
 
 	familyLen := b[0]
 	b = b[1:]
 
+	if int(familyLen) > len(b) {
+		return nil, 0, fmt.Errorf("HBase has lied about family length: %d, but only %d bytes left",
+			familyLen, len(b))
+	}
 	family := b[:familyLen]
 	b = b[familyLen:]
 
@@ -226,6 +244,10 @@ func cellFromCellBlock(b []byte) (*pb.Cell, uint32, error) {
 		8 /*timestamp*/ +1 /*cellType*/ +valueLen != kvLen {
 		return nil, 0, fmt.Errorf("HBase has lied about KeyValue length: expected %d, got %d",
 			kvLen, 4+4+2+uint32(keyLen)+1+uint32(familyLen)+qualifierLen+8+1+valueLen)
+	}
+	if uint64(qualifierLen)+8+1+uint64(valueLen) != uint64(len(b)) {
+		return nil, 0, fmt.Errorf("HBase has lied about KeyValue length: %d bytes left for "+
+			"a qualifier of %d and a value of %d bytes", len(b), qualifierLen, valueLen)
 	}
 	qualifier := b[:qualifierLen]
 	b = b[qualifierLen:]
@@ -249,6 +271,11 @@ func cellFromCellBlock(b []byte) (*pb.Cell, uint32, error) {
 }
 
 func deserializeCellBlocks(b []byte, cellsLen uint32) ([]*pb.Cell, uint32, error) {
+	// every cell takes at least 4+4+4+2+1+8+1 bytes: don't trust a count
+	// that the buffer cannot possibly hold (it is used to size a slice)
+	if uint64(cellsLen)*24 > uint64(len(b)) {
+		return nil, 0, fmt.Errorf("buffer is too small: %d bytes for %d cells", len(b), cellsLen)
+	}
 	cells := make([]*pb.Cell, cellsLen)
 	var readLen uint32
 	for i := 0; i < int(cellsLen); i++ {
